@@ -1,10 +1,10 @@
 package checks
 
 import (
-	"sync"
 	"encoding/json"
 	"fmt"
 	"math/big"
+	"sync"
 	"time"
 
 	"verif/harness/ev"
@@ -123,10 +123,14 @@ func c05Body(c *ev.Ctx) {
 	quick := c.Quick()
 	var err error
 	if tinyPos2, err = r1csmc.CompileTiny(&gad.Pos2{}); err != nil {
-		c.HarnessError("%v", err)
+		c.Violation("compile|Poseidon2", fmt.Sprintf("the Poseidon2 gadget cannot be compiled: %.300s", err), nil)
+		r.finish("C05")
+		return
 	}
 	if tinyPos1, err = r1csmc.CompileTiny(&gad.Pos1{}); err != nil {
-		c.HarnessError("%v", err)
+		c.Violation("compile|Poseidon1", fmt.Sprintf("the Poseidon1 gadget cannot be compiled: %.300s", err), nil)
+		r.finish("C05")
+		return
 	}
 	c.Set("poseidon2_r1cs_constraints", int64(len(tinyPos2.Cons)))
 	c.Set("poseidon2_hint_sites", int64(len(tinyPos2.Sites)))
